@@ -126,6 +126,43 @@ int main()
     check(attempt([&] { r = m.i(0); }, "") == 0 && r == 7, "NAMED_ALLOW_CALL_V.RETURN", "wrong result");
     if (fails == f0) std::printf("PASS value-spellings\n");
   }
+  // --- every spelling of the call-count bounds: compile-time TIMES and run-time RT_TIMES, one argument, two arguments,
+  //     AT_LEAST, AT_MOST.  [L, H]: satisfied exactly from the L-th call on, saturated exactly at the H-th, the call after the
+  //     H-th is a fatal no-match (there is no older expectation), never a report at end of life once L was reached.
+  {
+    constexpr size_t inf = ~size_t(0);
+    auto bounds = [&](char const* name, size_t L, size_t H, auto make) {
+      M m; int f0 = fails;
+      EP e = make(m);
+      size_t const calls = (H == inf ? L + 3 : H);
+      for (size_t k = 0; k <= calls; ++k) {
+        // after k accepted calls
+        check(e->is_satisfied() == (k >= L), name, "is_satisfied() is not (handled >= L)");
+        check(e->is_saturated() == (k == H), name, "is_saturated() is not (handled == H)");
+        if (k == calls) break;
+        check(attempt([&] { m.v(1); }, "") == 0, name, "a call within the upper bound was rejected");
+      }
+      if (H != inf) {
+        check(attempt([&] { m.v(1); }, "No match") == 1, name, "the call beyond the upper bound was not a fatal no-match report");
+        check(e->is_saturated(), name, "no longer saturated after the rejected call");
+      }
+      int before = nonfatal;
+      e.reset();
+      check(nonfatal == before, name, "reported at end of life although the lower bound was reached");
+      if (fails == f0) std::printf("PASS %s\n", name);
+    };
+    size_t two = 2, three = 3, one = 1, zero = 0;
+    bounds("TIMES(2)", 2, 2, [](M& m) -> EP { return NAMED_REQUIRE_CALL(m, v(1)).TIMES(2); });
+    bounds("TIMES(1,3)", 1, 3, [](M& m) -> EP { return NAMED_REQUIRE_CALL(m, v(1)).TIMES(1, 3); });
+    bounds("TIMES(AT_LEAST(2))", 2, inf, [](M& m) -> EP { return NAMED_REQUIRE_CALL(m, v(1)).TIMES(AT_LEAST(2)); });
+    bounds("TIMES(AT_MOST(2))", 0, 2, [](M& m) -> EP { return NAMED_REQUIRE_CALL(m, v(1)).TIMES(AT_MOST(2)); });
+    bounds("RT_TIMES(n)", 2, 2, [&](M& m) -> EP { return NAMED_REQUIRE_CALL(m, v(1)).RT_TIMES(two); });
+    bounds("RT_TIMES(1)", 1, 1, [&](M& m) -> EP { return NAMED_REQUIRE_CALL(m, v(1)).RT_TIMES(one); });
+    bounds("RT_TIMES(lo,hi)", 1, 3, [&](M& m) -> EP { return NAMED_REQUIRE_CALL(m, v(1)).RT_TIMES(one, three); });
+    bounds("RT_TIMES(0,hi)", 0, 2, [&](M& m) -> EP { return NAMED_REQUIRE_CALL(m, v(1)).RT_TIMES(zero, two); });
+    bounds("RT_TIMES(AT_LEAST(n))", 2, inf, [&](M& m) -> EP { return NAMED_REQUIRE_CALL(m, v(1)).RT_TIMES(AT_LEAST(two)); });
+    bounds("RT_TIMES(AT_MOST(n))", 0, 2, [&](M& m) -> EP { return NAMED_REQUIRE_CALL(m, v(1)).RT_TIMES(AT_MOST(two)); });
+  }
   std::printf("DONE fails=%d\n", fails);
   return 0;
 }
